@@ -303,6 +303,23 @@ def sweep(run: Run, label, tbl, exp: Expect, src, dens_rows, na, nontrivial_keys
         run.disagree("mass-loader", dict(table=label, what="init"), rep[0], "loads")
         return
     compare_table(run, label, obs, isotopes, rep[1:], atoms, zs, dict(table=label))
+    # the nuclides an element enumerates are the rows of the mass table (plus D and T of H and the
+    # neutron's single isotope); `iter(el)` and `table.isotope()` serve the same ones
+    for z in zs:
+        if z not in isotopes:
+            continue
+        want = sorted({a for (zz, a) in exp.iso if zz == z} | ({2, 3} if z == 1 else set()) | ({1} if z == 0 else set()))
+        got = {"isotopes": isotopes[z], "iter": [iso.isotope for iso in tbl[z]]}
+        for how, g in got.items():
+            if g != want:
+                run.violation("%s enumerates other nuclides than the mass table (%s)" % (exp.symbols.get(z), how),
+                              dict(table=label, z=z, how=how, expected=want, got=g), observable="isotopes", z=z)
+                break
+        for a in want[:1] + want[-1:]:
+            ok = P.observe(lambda: tbl.isotope("%d-%s" % (a, exp.symbols[z])).isotope) if z else a
+            if ok != a:
+                run.violation("table.isotope('%d-%s') does not find the nuclide" % (a, exp.symbols.get(z)),
+                              dict(table=label, z=z, a=a, got=P.tok(ok)), observable="isotope()", z=z)
     for z, a in atoms:
         run.count(key=(label, z, a), nontrivial=(z, a) in nontrivial_keys,
                   sample="%s %s[%d]" % (label, exp.symbols.get(z), a) if (z, a) in ((92, 235), (1, 2), (17, 0)) else None,
@@ -636,6 +653,16 @@ def run(run: Run) -> int:
     density.init(priv)
     sweep(run, "private", priv, exp, src, dens_rows, na, nontrivial_keys)
     P.drop_private(priv)
+    # a private table that was looked at before its data arrived serves the same values
+    priv = P.fresh_private("c06")
+    for el in priv:
+        _ = el.isotopes, [iso.isotope for iso in el], P.observe(lambda: el.mass), P.observe(lambda: el.density)
+    P.observe(lambda: priv.isotope("56-Fe"))
+    P.observe(lambda: priv.isotope("1-H"))
+    mass.init(priv)
+    density.init(priv)
+    sweep(run, "private-inspected", priv, exp, src, dens_rows, na, nontrivial_keys)
+    P.drop_private(priv)
     run.exhaustive = True
     # parse_uncertainty on its own
     check_parse_uncertainty(run, parse_uncertainty, 300 if run.tier == "quick" else 50000)
@@ -676,8 +703,11 @@ def replay(data) -> int:
             continue
         else:
             tbl = pt.elements
-            if inp.get("table") == "private":
+            if str(inp.get("table")).startswith("private"):
                 tbl = P.fresh_private("c06")
+                if inp.get("table") == "private-inspected":
+                    for el in tbl:
+                        _ = el.isotopes, [iso.isotope for iso in el]
                 mass.init(tbl)
                 density.init(tbl)
             z, a = inp.get("z", 0), inp.get("a", 0)
